@@ -17,7 +17,7 @@ WITNESSES = ["weather_file_read_by_prepare_weather", "file_with_row_label_column
 NONTRIVIAL = WITNESSES
 
 COLS = ["MinTemp", "MaxTemp", "Precipitation", "ReferenceET", "Date"]
-EXTRA = ["none", "front", "middle", "end", "nan_gaps", "clash_names"]
+EXTRA = ["none", "front", "middle", "end", "nan_gaps", "clash_names", "case_variants"]
 INDEX = ["range", "shift1000", "reversed_labels", "strings", "date", "restart_yearly", "constant", "concat31"]
 NONUNIQUE = ["restart_yearly", "constant", "concat31"]   # repeated labels: yearly files / extra rows concatenated without ignore_index, a station id
 ROWS = ["none", "lead400", "trail400", "both", "lead_gap", "lead_dup", "lead_labels", "trail_gap"]
@@ -320,6 +320,15 @@ def transform(df, scn, spec):
         d.insert(3, "season", np.arange(n) % 7)
         d["gdd_cum"] = np.linspace(0.0, 9000.0, n)
         d["year"] = 1900
+    elif scn["extra"] == "case_variants":
+        # unrelated columns whose names equal a required name up to upper / lower case (a second sensor in other units), after AND
+        # before the real columns
+        n = len(d)
+        d["mintemp"] = np.linspace(60.0, 95.0, n)            # Fahrenheit
+        d["MAXTEMP"] = np.linspace(-40.0, 10.0, n)
+        d["referenceet"] = np.linspace(20.0, 0.0, n)
+        d.insert(0, "precipitation", np.linspace(0.0, 300.0, n))
+        d.insert(0, "date", "n/a")
     elif scn["extra"] != "none":
         junk = np.linspace(-50.0, 900.0, len(d))
         pos = {"front": 0, "middle": 2, "end": len(cols)}[scn["extra"]]
@@ -450,10 +459,10 @@ def run(scn):
 def describe(tier):
     return {
         "rule": "ALL 120 permutations of the five required columns; unrelated extra columns at the front / middle / end, and one with NaN gaps; index {RangeIndex, shifted by 1000, reversed labels, "
-                "string labels, Date index, and REPEATED labels: restarting every calendar year, one constant station id, rows concatenated without ignore_index}; 400 extra leading / trailing rows / both, also with a gap of missing days, a duplicated row or dropped-but-not-re-indexed rows outside the window; " + ("each factor alone against the identity, repeated labels x rows outside the window, plus three combined cases" if tier == "quick" else "the FULL product (120 x 6 x 5 x 8 = 28800 tables per crop plus 12 x 6 x 3 x 8 with repeated index labels; every 12th permutation for the two extra crop kinds)")
+                "string labels, Date index, and REPEATED labels: restarting every calendar year, one constant station id, rows concatenated without ignore_index}; 400 extra leading / trailing rows / both, also with a gap of missing days, a duplicated row or dropped-but-not-re-indexed rows outside the window; " + ("each factor alone against the identity, repeated labels x rows outside the window, plus three combined cases" if tier == "quick" else "the FULL product (120 x 7 x 5 x 8 = 33600 tables per crop plus 12 x 7 x 3 x 8 with repeated index labels; every 12th permutation for the two extra crop kinds)")
                 + "; x {calendar-day crop with threshold irrigation; thermal-time crop started before / on its planting date; calendar crop converted to thermal time (SwitchGDD=1)} over 2 seasons. "
                 "Oracle: all four tables bitwise equal to the run fed with the canonical table; plus a by-name oracle: for a thermal crop under degree-day methods 1-3 and a word with nights below the base temperature, the thermal calendar of EVERY season and the daily degree days must equal a reference computed from the columns named MinTemp/MaxTemp on the dates concerned; after the run the model's weather matrix must still hold, row by row, the record carrying that row's date; and the last of three seasons must be bitwise equal to a run of the same table started on that season's planting date (same dates at another row offset).",
-        "bound": "120 permutations complete; " + ("factors alone" if tier == "quick" else "full product 120 x 6 x 5 x 8 (+ 12 x 6 x 3 x 8 with repeated labels)") + " x 2 crops",
+        "bound": "120 permutations complete; " + ("factors alone" if tier == "quick" else "full product 120 x 6 x 5 x 8 (+ 12 x 7 x 3 x 8 with repeated labels)") + " x 2 crops",
         "exhaustive": True,
         "witnesses": WITNESSES,
         "assumptions": ["bitwise comparison on one interpreter/numpy build"],
